@@ -46,50 +46,65 @@ class _ListenerGate:
     """Application listeners on the event bus whose every invocation can be made to suspend.
 
     One async listener for ConnectionStateChangedEvent, PeerInitializedEvent and MessageReceivedEvent.  Each
-    invocation gets a label — `d:<STATE>` / `i:<STATE>` (state notification of the outgoing / an incoming peer
-    connection), `d:INIT` / `i:INIT` (PeerInitializedEvent), `m:<Message class>` (a server message, delivered to
-    listeners *before* the response waiters are completed).  A label the schedule has armed (`hold`) parks the
-    invocation on a future until the schedule releases it (`release`); everything else returns at once, as the
-    library's own listeners do."""
+    invocation gets a label:
+      `d:<STATE>`, `d:INIT`   state notification / PeerInitializedEvent of the outgoing connection (direct attempt);
+      `a:<STATE>`, `a:INIT`   … of an incoming connection, emitted by the task that accepts it;
+      `w:<STATE>`             … of an incoming connection, emitted by any other task (the request closing the
+                              connection it was given);
+      `m:<Message>`           a server message (listeners run *before* the response waiters are completed).
+    A label the schedule has armed (`hold`) parks the invocation on a future until the schedule releases it
+    (`release`); everything else returns at once, as the library's own listeners do.  `log` records
+    [kind, label, probe] with kind in pass | park | resume | cancel (the invocation was interrupted by
+    CancelledError) and `probe()` sampled at that very moment."""
 
-    def __init__(self, bus, loop):
+    def __init__(self, bus, loop, accept_tasks, probe):
         from aioslsk.events import ConnectionStateChangedEvent, PeerInitializedEvent, MessageReceivedEvent
         self.loop = loop
+        self.accept_tasks = accept_tasks
+        self.probe = probe
         self.armed: set = set()
-        self.parked: list = []        # [label, future] in arrival order
-        self.seen: list = []          # every label, in emission order
+        self.parked: list = []        # [label, future, connection] in arrival order
+        self.log: list = []
         self._l = self.on_event       # the bus holds listeners weakly
         for cls in (ConnectionStateChangedEvent, PeerInitializedEvent, MessageReceivedEvent):
             bus.register(cls, self._l)
 
-    @staticmethod
-    def label(ev):
+    def label(self, ev):
         from aioslsk.events import ConnectionStateChangedEvent, PeerInitializedEvent, MessageReceivedEvent
         from aioslsk.network.connection import PeerConnection, ServerConnection
-        if isinstance(ev, ConnectionStateChangedEvent):
-            if isinstance(ev.connection, PeerConnection):
-                return ('i' if ev.connection.incoming else 'd') + ':' + ev.state.name
-            return None
-        if isinstance(ev, PeerInitializedEvent):
-            return ('i' if ev.connection.incoming else 'd') + ':INIT'
+        if isinstance(ev, (ConnectionStateChangedEvent, PeerInitializedEvent)):
+            conn = ev.connection
+            if not isinstance(conn, PeerConnection):
+                return None, None
+            what = 'INIT' if isinstance(ev, PeerInitializedEvent) else ev.state.name
+            if not conn.incoming:
+                return 'd:' + what, conn
+            accepting = asyncio.current_task() in self.accept_tasks.values()
+            return ('a:' if accepting else 'w:') + what, conn
         if isinstance(ev, MessageReceivedEvent) and isinstance(ev.connection, ServerConnection):
-            return 'm:' + type(ev.message).__qualname__.split('.')[0]
-        return None
+            return 'm:' + type(ev.message).__qualname__.split('.')[0], None
+        return None, None
 
     async def on_event(self, ev):
-        lab = self.label(ev)
+        lab, conn = self.label(ev)
         if lab is None:
             return
-        self.seen.append(lab)
-        if lab in self.armed:
-            fut = self.loop.create_future()
-            ent = [lab, fut]
-            self.parked.append(ent)
-            try:
-                await fut
-            finally:
-                if ent in self.parked:
-                    self.parked.remove(ent)
+        if lab not in self.armed:
+            self.log.append(['pass', lab, self.probe()])
+            return
+        fut = self.loop.create_future()
+        ent = [lab, fut, conn]
+        self.parked.append(ent)
+        self.log.append(['park', lab, self.probe()])
+        try:
+            await fut
+            self.log.append(['resume', lab, self.probe()])
+        except asyncio.CancelledError:
+            self.log.append(['cancel', lab, self.probe()])
+            raise
+        finally:
+            if ent in self.parked:
+                self.parked.remove(ent)
 
     def release(self, lab) -> bool:
         for ent in self.parked:
@@ -100,6 +115,10 @@ class _ListenerGate:
 
     def parked_labels(self) -> list:
         return [e[0] for e in self.parked if not e[1].done()]
+
+    def inflight(self) -> list:
+        """incoming connections whose acceptance is being held up by a parked listener"""
+        return [e[2] for e in self.parked if not e[1].done() and e[0].startswith('a:')]
 
 
 def _run_impl(case: dict) -> dict:
@@ -132,8 +151,16 @@ def _run_impl(case: dict) -> dict:
             typ = case['typ']
             bus, net, server, srv_task = await start_network(loop, fn, make_settings(mode, obfuscate=prefer))
             net._ticket_generator = iter([TICKET] + list(range(9000, 9100)))
-            gate = _ListenerGate(bus, loop)
+
+            def probe():
+                f = net._expected_connection_futures.get(TICKET)
+                return {'tw': int(f is not None and not f.done()),
+                        'aw': int(any(x.message_class is GetPeerAddress.Response and not x.done()
+                                      for x in net._expected_response_futures))}
+            gate = _ListenerGate(bus, loop, fn.accept_tasks, probe)
             gate.armed |= set(case.get('hold', []))
+            cancel_called = [False]
+            msg_held: dict = {}          # 'm:<Message>' -> the op whose message the parked listener is holding up
             srv_w = fn.lib_writers[SERVER_ADDR]
             port, obf = _expected_port(prefer, clear, obfs)
             dkey = (PEER_IP, port)
@@ -178,20 +205,23 @@ def _run_impl(case: dict) -> dict:
                 return [k for k in fn.pending if k != SERVER_ADDR and fn.connect_parked(k)]
 
             def enabled(name, arg):
+                if name in ('addrReply', 'cannotConnect') and any(l.startswith('m:') for l in gate.parked_labels()):
+                    return False         # the server reader is inside a listener: later messages just queue up
                 if name == 'addrReply':
                     return bool(listed(GetPeerAddress.Response)) and srv_open()
                 if name in ('connectOk', 'connectRefused', 'connectTimeout'):
                     return bool(dial_parked())
                 if name == 'pierce':
-                    return True
+                    # one incoming connection in flight at a time (the model's bound)
+                    return not any(l.startswith('a:') for l in gate.parked_labels())
                 if name == 'cannotConnect':
                     return srv_open()
                 if name == 'indirectTimeout':
                     t = indirect_task()
                     return t is not None and not t.done() and _indirect_parked(t)
                 if name == 'cancelRequest':
-                    return not req.done()
-                if name in ('hold', 'unhold'):
+                    return not req.done() and not cancel_called[0]
+                if name in ('hold', 'unhold', 'drain'):
                     return True
                 if name == 'release':
                     return arg in gate.parked_labels()
@@ -247,6 +277,7 @@ def _run_impl(case: dict) -> dict:
                         m = GetPeerAddress.Response(USER, '0.0.0.0', 0, obfuscated_port_amount=0, obfuscated_port=0)
                     else:
                         m = GetPeerAddress.Response(USER, PEER_IP, 0, obfuscated_port_amount=0, obfuscated_port=0)
+                    msg_held['m:GetPeerAddress'] = ['addrReply', arg]
                     server.send(m)
                 elif name == 'connectOk':
                     init_cfg['fail'] = not arg
@@ -263,10 +294,12 @@ def _run_impl(case: dict) -> dict:
                     rr, rw = fn.incoming(CLEAR_PORT, key)
                     rw.write(PeerPierceFirewall.Request(TICKET).serialize())
                 elif name == 'cannotConnect':
+                    msg_held['m:CannotConnect'] = ['cannotConnect']
                     server.send(CannotConnect.Response(TICKET))
                 elif name == 'indirectTimeout':
                     let_indirect_time_out()
                 elif name == 'cancelRequest':
+                    cancel_called[0] = True
                     req.cancel()
                 elif name == 'hold':
                     gate.armed.add(arg)
@@ -310,7 +343,8 @@ def _run_impl(case: dict) -> dict:
                     if not usable:
                         res += '!unusable'
                 reg = sorted(('i' if c.incoming else 'd') for c in net.peer_connections)
-                others = [c for c in net.peer_connections if ret is not None and c is not ret]
+                inflight = gate.inflight()
+                others = [c for c in net.peer_connections if ret is not None and c is not ret and c not in inflight]
                 tw = int(TICKET in net._expected_connection_futures)
                 extra_t = [t for t in net._expected_connection_futures if t != TICKET]
                 rw_n = len(listed(CannotConnect.Response))
@@ -322,14 +356,18 @@ def _run_impl(case: dict) -> dict:
                     op.append('i' if k in in_keys else 'd')
                 ctp = int(any(isinstance(r, ConnectToPeer.Request) and r.ticket == TICKET and r.username == USER
                               and r.typ == typ for r in server.received))
+                held = sorted(gate.parked_labels())
                 line = (f"res={res} reg={','.join(reg)} tw={tw} rw={rw_n} aw={aw_n} open={','.join(sorted(op))} "
-                        f"ctp={ctp} init={init_ok}")
+                        f"ctp={ctp} init={init_ok} held={','.join(l for l in held if not l.startswith('m:'))}")
+                inflight_keys = [(c.hostname, c.port) for c in inflight]
                 if extra_t:
                     line += f' EXTRA_TICKETS={extra_t}'
                 acc_exc = sorted({type(t.exception()).__name__ for t in fn.accept_tasks.values()
                                   if t.done() and not t.cancelled() and t.exception() is not None})
                 facts = {'res': res, 'reg': reg, 'tw': tw, 'rw': rw_n, 'aw': aw_n, 'open': sorted(op),
-                         'held': gate.parked_labels(), 'seen': list(gate.seen),
+                         'held': held,
+                         'inflight_reg': sum(1 for c in inflight if c in net.peer_connections),
+                         'inflight_open': sum(1 for k in inflight_keys if k in fn.lib_writers and not fn.lib_writers[k]._closed),
                          'reg_states': sorted(('i' if c.incoming else 'd') + ':' + c.state.name + ':' + c.connection_state.name for c in net.peer_connections),
                          'accept_exceptions': acc_exc,
                          'reg_initialised': all(c.connection_state != PeerConnectionState.AWAITING_INIT
@@ -340,14 +378,36 @@ def _run_impl(case: dict) -> dict:
                                                                          or t.get_name().startswith('indirect-connect-')))}
                 return line, facts
 
-            executed, lines, facts_l, skipped = [], [], [], []
+            executed, lines, facts_l, skipped, logs, mlines = [], [], [], [], [], []
+
+            def model_lines_of(own: list, log: list) -> list:
+                """the model ops one executed schedule op amounts to: the op itself (unless its server message is being
+                held up by a listener), then one `note` per notification whose listeners returned (passed or resumed)"""
+                out = list(own)
+                for kind, lab, pr in log:
+                    if lab.startswith('m:'):
+                        held_op = msg_held.get(lab)
+                        if kind == 'park' and held_op is not None:
+                            # the message has not taken effect yet
+                            out = [l for l in out if l != _fmt_op(held_op)]
+                        elif kind == 'resume' and held_op is not None:
+                            if held_op[0] != 'addrReply' or pr['aw']:
+                                out.append(_fmt_op(held_op))
+                    elif kind in ('pass', 'resume'):
+                        out.append('note ' + lab)
+                return out or ['show']
+
             line, facts = snapshot()
             lines.append(line)
             facts_l.append(facts)
+            logs.append(list(gate.log))
+            mlines.append(model_lines_of([], gate.log))
             exec_idx: list = []
             for j_, op in enumerate(case['ops']):
                 name = op[0]
                 arg = op[1] if len(op) > 1 else None
+                n_log = len(gate.log)
+                own = []
                 if name == 'pair':
                     # two completions inside ONE settle: A, `gap` loop iterations, B  (coincidence family, monitor only)
                     _, a, b, gap = op
@@ -364,8 +424,18 @@ def _run_impl(case: dict) -> dict:
                 elif not enabled(name, arg):
                     skipped.append(op)
                     continue
+                elif name == 'drain':
+                    # every listener returns: nothing is armed any more, the parked invocations are released one by one
+                    gate.armed.clear()
+                    guard = 0
+                    while gate.parked_labels() and guard < 64:
+                        guard += 1
+                        gate.release(gate.parked_labels()[0])
+                        await settle()
                 else:
                     do_op(name, arg)
+                    if name not in ('hold', 'unhold', 'release'):
+                        own = [_fmt_op(op)]
                 await settle()
                 for k in fn.attempts:
                     if k != SERVER_ADDR and k not in dialed:
@@ -375,9 +445,12 @@ def _run_impl(case: dict) -> dict:
                 exec_idx.append(j_)
                 lines.append(line)
                 facts_l.append(facts)
+                logs.append(gate.log[n_log:])
+                mlines.append(model_lines_of(own, gate.log[n_log:]))
             dconn = [c for c in [*net.peer_connections] if not c.incoming]
             keep = (bus, net, srv_task, gate)  # noqa: F841
             return {'executed': executed, 'exec_idx': exec_idx, 'lines': lines, 'facts': facts_l, 'skipped': skipped,
+                    'logs': logs, 'mlines': mlines,
                     'dialed': [list(k) for k in dialed], 'expected_dial': [PEER_IP, port], 'hang': hang['hit'], 'sites': sorted(audit.sites),
                     'dial_obfuscated': [bool(c.obfuscated) for c in dconn],
                     'loop_exceptions': [e for e in loop.exceptions if e.get('type') not in (None, 'CancelledError', '_Hang')]}
@@ -397,16 +470,21 @@ def _run_impl(case: dict) -> dict:
     return res
 
 
-def _model_lines(case: dict, executed: list) -> list[str]:
-    out = [f"new {case['mode']} {int(bool(case['lookup']))} {int(bool(case['srvFail']))}"]
-    for op in executed:
-        if op[0] == 'connectOk':
-            out.append(f'connectOk {int(bool(op[1]))}')
-        elif len(op) > 1:
-            out.append(f'{op[0]} {op[1]}')
-        else:
-            out.append(op[0])
-    return out
+def _fmt_op(op: list) -> str:
+    if op[0] == 'connectOk':
+        return f'connectOk {int(bool(op[1]))}'
+    if len(op) > 1:
+        return f'{op[0]} {op[1]}'
+    return op[0]
+
+
+def _model_groups(case: dict, io: dict) -> list[list[str]]:
+    """one group of driver lines per observed snapshot; the answer to the LAST line of a group is compared with the
+    snapshot, no line of a group may be rejected"""
+    groups = [list(g) for g in io['mlines']]
+    groups[0] = [f"new {case['mode']} {int(bool(case['lookup']))} {int(bool(case['srvFail']))}"] + \
+        [l for l in groups[0] if l != 'show']
+    return groups
 
 
 # --------------------------------------------------------------------------------------------
@@ -464,6 +542,10 @@ def _offered(case: dict) -> list:
     return out
 
 
+def _has_holds(case: dict) -> bool:
+    return bool(case.get('hold')) or any(op[0] in ('hold', 'release', 'drain') for op in case['ops'])
+
+
 def _monitor(case: dict, impl: dict) -> list[Violation]:
     vs: list[Violation] = []
     full_case = dict(case)
@@ -478,7 +560,7 @@ def _monitor(case: dict, impl: dict) -> list[Violation]:
 
     # --- the request does what the schedule's offers require (not for the coincidence family: there either of two
     #     simultaneous outcomes may win)
-    if not case['kind'].startswith('coincidence') and 'exec_idx' in impl:
+    if not case['kind'].startswith('coincidence') and not _has_holds(case) and 'exec_idx' in impl:
         offered = _offered(case)
         final_req, final_who = offered[-1] if offered else ('pending', None)
         # result of the real call after proposal j = at the last executed op with proposal index <= j
@@ -519,19 +601,24 @@ def _monitor(case: dict, impl: dict) -> list[Violation]:
     direct_dead = indirect_dead = False
     indirect_started = False
     ops = [None] + impl['executed']
+    logs = impl.get('logs') or [[] for _ in ops]
     for n, (op, f) in enumerate(zip(ops, impl['facts'])):
         prev = impl['facts'][n - 1] if n else None
         pending_before = prev is None or prev['res'] == 'pending'
         ctp_seen = 'ctp=1' in impl['lines'][n]
+        if pending_before:
+            # an attempt has succeeded once the listeners of its PeerInitializedEvent have returned (direct), resp.
+            # have returned while the request was still waiting for the ticket (indirect) — see DESIGN, C11
+            for kind, lab, pr in logs[n]:
+                if kind in ('pass', 'resume') and lab == 'd:INIT':
+                    direct_ok = True
+                if kind in ('pass', 'resume') and lab == 'a:INIT' and pr['tw']:
+                    indirect_ok = True
         if op is not None and pending_before:
             name = op[0]
-            if name == 'connectOk' and op[1]:
-                direct_ok = True
             if name in ('connectRefused', 'connectTimeout') or (name == 'connectOk' and not op[1]) or \
                     (name == 'addrReply' and op[1] != 'valid'):
                 direct_dead = True
-            if name == 'pierce' and prev is not None and prev['tw']:
-                indirect_ok = True
             if name in ('cannotConnect', 'indirectTimeout') and prev is not None and prev['rw']:
                 indirect_dead = True
         if ctp_seen:
@@ -558,14 +645,13 @@ def _monitor(case: dict, impl: dict) -> list[Violation]:
             if f['extra_tickets']:
                 left.append('foreign ticket waiters')
             returned = 1 if res in ('D', 'I') else 0
-            # coincidence family only: a request cancelled in the few loop iterations after an attempt already
-            # returned its initialised, announced (PeerInitializedEvent) connection keeps that winner — the race
-            # is then gathering the loser; distributed._set_parent relies on it (fixes/C11-attempt-cleanup.md)
-            kept = (1 if case['kind'].startswith('coincidence') and res == 'cancelled' and f.get('reg_initialised')
-                    and len(f['reg']) == 1 and f['reg'] == f['open'] else 0)
-            if len(f['reg']) > returned + kept or (returned and f['other_registered']):
+            # an incoming connection whose acceptance an application listener is still holding up (`a:` parked) is not
+            # the request's: it has not even been matched to a ticket, or is being closed as soon as the listener returns
+            n_reg = len(f['reg']) - f.get('inflight_reg', 0)
+            n_open = len(f['open']) - f.get('inflight_open', 0)
+            if n_reg > returned or (returned and f['other_registered']):
                 left.append(f"registered connections {f['reg']} besides the returned one")
-            if len(f['open']) > returned + kept:
+            if n_open > returned:
                 left.append(f"open sockets {f['open']} besides the returned one")
             if f['children_pending']:
                 left.append(f"attempt tasks still running: {f['children_pending']}")
@@ -578,7 +664,7 @@ def _monitor(case: dict, impl: dict) -> list[Violation]:
                 add(sig, f'after {op} (request {res}): left behind: ' + '; '.join(left), impl['lines'][n],
                     'exactly the returned connection remains')
     final = impl['facts'][-1]
-    if final['res'] == 'pending':
+    if final['res'] == 'pending' and not final.get('held'):
         srv_dead = case['srvFail']
         ind_dead = indirect_dead or srv_dead
         if direct_ok or indirect_ok:
